@@ -6,6 +6,8 @@ SPEC = {
         {"name": "ntor", "pkg": NT, "kind": "rapid", "run": "^TestVerifC08Ntor$",
          "quick": {"checks": 400, "shards": 8, "timeout": 300},
          "thorough": {"checks": 6000, "shards": 16, "timeout": 3000}},
+        {"name": "unlucky-keygen", "pkg": NT, "kind": "plain", "run": "^TestVerifC08UnluckyKeygen$",
+         "quick": {"timeout": 300}, "thorough": {"timeout": 300}},
         {"name": "kdf", "pkg": NT, "kind": "rapid", "run": "^TestVerifC08Kdf$",
          "quick": {"checks": 800, "shards": 1, "timeout": 300},
          "thorough": {"checks": 10000, "shards": 4, "timeout": 1500}},
